@@ -1,6 +1,191 @@
 /-
-  C06 — property theorems (stub; to be filled in).
+  C06 — reusable handles are never changed by the chains and queries derived from them.
+
+  Model: GormModel/Model/Heap.lean — Go slices over explicit backing arrays (append in place iff
+  len+n ≤ cap), gorm.Statement's slice fields in that heap, `getInstance` (clone 0/1/2) / `Session` /
+  `Statement.clone` with the per-field copy discipline READ from the regenerated `Gen.cloneLiteral` /
+  `Gen.cloneLater`, every `MergeClause` with make+copy vs `append(old,…)` READ from the regenerated
+  `Gen.mergeFacts`, `Where.Build`'s in-place swap, `BuildCondition`'s rewrite of a group argument.
+  A ghost counter `Heap.writes` counts the writes that hit a slot some slice may already expose.
+
+  What is proved (all histories, all heaps, all capacities — induction over the op list):
+  * FROZEN: while the counter does not move, nothing any existing slice exposes changes — for every
+    history over every copy/merge discipline (`C06_frozen`, `C06_frozen_history`).
+  * one lemma per step kind saying the step never moves the counter: derivations (any discipline),
+    `Statement.clone` (any discipline), every merge that copies, every chain method of the copying
+    class (`C06_step_never_writes`), keyed on the regenerated merge facts.
+  * the step kinds for which that is FALSE on the unchanged tree are kernel-checked counterexamples in
+    which a chain renders differently inside the history than replayed alone (F4, F5, F23, F22).
+  The equality "rendering in the history = rendering of the same chain alone" itself is checked on
+  every run by the tie and the e2e oracle (harness/c06.go), not proved in Lean — see manifest note.
 -/
+import GormModel.Lemmas.Heap
 namespace Gorm
+open Gorm.Heap
+
+/-! ## FROZEN: nothing exposed changes while no exposed slot is written -/
+
+/-- For EVERY copy/merge discipline, every state and every continuation of the history: if the run
+    performs no write to an exposed slot, every slice that was valid before reads the same afterwards
+    (appends that fit the capacity only ever extend an array beyond everything exposed). -/
+theorem C06_frozen (c : Cfg) (slices : List (List Nat × Nat)) (fuel : Nat) (S : State) (ops : List Op)
+    (hw : (runFrom c slices fuel S ops).heap.writes = S.heap.writes) (s : Slice) (v : s.validIn S.heap) :
+    readS (runFrom c slices fuel S ops).heap s = readS S.heap s :=
+  readS_of_grows ((runFrom_ext c slices fuel ops S).2 hw) s v
+
+/-- the same over a history split at any point: whatever is built, executed or abandoned AFTER `pre`
+    does not change what the slices existing after `pre` expose -/
+theorem C06_frozen_history (c : Cfg) (fuel : Nat) (sl : List (List Nat × Nat)) (pre post : List Op)
+    (hw : (run c fuel ⟨sl, pre ++ post⟩).heap.writes = (run c fuel ⟨sl, pre⟩).heap.writes)
+    (s : Slice) (v : s.validIn (run c fuel ⟨sl, pre⟩).heap) :
+    readS (run c fuel ⟨sl, pre ++ post⟩).heap s = readS (run c fuel ⟨sl, pre⟩).heap s := by
+  unfold run at *
+  simp only at *
+  rw [runFrom_append] at hw ⊢
+  exact C06_frozen c sl fuel _ post hw s v
+
+/-- the counter never decreases: an exposed-slot write anywhere in a history stays visible at its end -/
+theorem C06_writes_monotone (c : Cfg) (slices : List (List Nat × Nat)) (fuel : Nat) (S : State) (ops : List Op) :
+    S.heap.writes ≤ (runFrom c slices fuel S ops).heap.writes := (runFrom_ext c slices fuel ops S).1
+
+/-- the copy / merge discipline of the UNCHANGED tree, spelled out -/
+def cfg0 : Cfg :=
+  { cl := { clauses := .freshMapShallow, selects := .shared, omits := .shared, joins := .makeCopy, scopes := .makeCopy,
+            clone2UsesClone := true },
+    mg := { wher := .makeCopy, order := .makeCopy, group := .makeCopy, ret := .appendOld } }
+
+/-- non-vacuity: a history with shared ancestors, siblings, a group argument and renderings that writes
+    no exposed slot, and whose renderings all equal their replays alone -/
+example : (run cfg0 8 ⟨[], [.cond 0 0 1, .cond 0 1 2, .session 2, .cond 1 3 3, .order 3 4, .condG 0 0 3,
+      .render 4 0, .render 5 1, .render 6 0]⟩).heap.writes = 0 := by decide +kernel
+
+/-! ## one lemma per step kind -/
+
+/-- derivations (Session / Session{NewDB} / WithContext / Begin) never write an exposed slot — for ANY
+    copy discipline of `Statement.clone` -/
+theorem C06_derive_never_writes (c : Cfg) (slices : List (List Nat × Nat)) (fuel : Nat) (S : State) (src : Nat) :
+    (step c slices fuel S (.session src)).heap.writes = S.heap.writes ∧
+    (step c slices fuel S (.newdb src)).heap.writes = S.heap.writes ∧
+    (step c slices fuel S (.ctx src)).heap.writes = S.heap.writes ∧
+    (step c slices fuel S (.begin src)).heap.writes = S.heap.writes := by
+  refine ⟨rfl, rfl, ?_, ?_⟩
+  · simp only [step, push, cloneStmt_writes]
+  · simp only [step, push, cloneStmt_writes, getInstance_writes]
+
+/-- FROZEN per step kind, keyed on the merge discipline: if Where/OrderBy/GroupBy/Returning.MergeClause
+    copy (none of them appends onto the OLD clause's slice), then Where/Or/Not(cond), Order,
+    Clauses(OrderBy{caller slice}), Group, Having, Clauses(Returning), Limit, Offset, Omit, Distinct,
+    Table, Unscoped, Clauses(Locking) never write an exposed slot — in any state, from any handle. -/
+theorem C06_step_never_writes (c : Cfg) (hw : c.mg.wher ≠ .appendOld) (ho : c.mg.order ≠ .appendOld)
+    (hg : c.mg.group ≠ .appendOld) (hr : c.mg.ret ≠ .appendOld)
+    (slices : List (List Nat × Nat)) (fuel : Nat) (S : State) (op : Op) (hop : op.copying = true) :
+    (step c slices fuel S op).heap.writes = S.heap.writes := by
+  cases op <;> (try (simp [Op.copying] at hop)) <;> simp only [step, push, Op.src] <;>
+    first
+      | rfl
+      | (rw [chainOn_writes c hw ho hg _ _ _ _ _ rfl (Or.inl hr), getInstance_writes])
+
+/-! ## what the regenerated facts say about the current tree -/
+
+/-- REGENERATED FACTS: `Statement.clone()` builds a fresh Clauses map with the old entries, copies Joins
+    and scopes with make+copy, shares Selects/Omits by reference; `getInstance` with clone == 2 goes through
+    `Statement.clone()`; Where/OrderBy/GroupBy.MergeClause copy — Returning.MergeClause appends onto the
+    old clause's slice.  A changed copy or merge discipline re-states this theorem. -/
+theorem C06_current_tree : genAll = cfg0 := by decide
+
+/-- every field of `type Statement struct` is classified by the clone facts (a field added without a
+    `clone` entry shows up as `dropped` and must be added here consciously) -/
+theorem C06_clone_fields_classified :
+    Gen.statementFields.map (fun f => (f, fieldKind f)) =
+      [("DB", .dropped), ("TableExpr", .shared), ("Table", .shared), ("Model", .shared), ("Unscoped", .shared),
+       ("Dest", .shared), ("ReflectValue", .shared), ("Clauses", .freshMapShallow), ("BuildClauses", .dropped),
+       ("Distinct", .shared), ("Selects", .shared), ("Omits", .shared), ("ColumnMapping", .shared), ("Joins", .makeCopy),
+       ("Preloads", .freshMapShallow), ("Settings", .shared), ("ConnPool", .shared), ("Schema", .shared),
+       ("Context", .shared), ("RaiseErrorOnNotFound", .shared), ("SkipHooks", .shared), ("SQL", .dropped),
+       ("Vars", .makeCopy), ("CurDestIndex", .dropped), ("attrs", .shared), ("assigns", .shared), ("scopes", .makeCopy)] := by
+  decide
+
+/-- on the current tree the copying step kinds never write an exposed slot — unless the step is a
+    Returning merge: the only hypothesis of `C06_step_never_writes` the regenerated facts refute -/
+theorem C06_current_tree_merges : genAll.mg.wher ≠ .appendOld ∧ genAll.mg.order ≠ .appendOld ∧ genAll.mg.group ≠ .appendOld := by
+  rw [C06_current_tree]; decide
+
+/-! ## counterexamples: the step kinds that DO write exposed slots on the unchanged tree -/
+
+/-- F4: three merged Returning clauses leave len 3 / cap 4; two siblings derived from the shared handle
+    both append into slot 3 — the first sibling renders the second's column. -/
+def f4History : History := ⟨[], [.ret 0 [1], .ret 1 [2], .ret 2 [3], .session 3, .ret 4 [4], .ret 4 [5], .render 5 3, .render 6 3]⟩
+
+theorem C06_returning_alias_counterexample :
+    (run cfg0 8 f4History).out 0 = [.fin 3, .retKw, .rcol 1, .rcol 2, .rcol 3, .rcol 5] ∧
+    (run cfg0 8 (sliceFor f4History 6)).out 0 = [.fin 3, .retKw, .rcol 1, .rcol 2, .rcol 3, .rcol 4] ∧
+    (run cfg0 8 f4History).heap.writes = 1 := by decide +kernel
+
+/-- with a Returning.MergeClause that copies, the same history is interference-free -/
+theorem C06_returning_alias_repaired :
+    (run { cfg0 with mg := { cfg0.mg with ret := .makeCopy } } 8 f4History).out 0 = [.fin 3, .retKw, .rcol 1, .rcol 2, .rcol 3, .rcol 4] ∧
+    (run { cfg0 with mg := { cfg0.mg with ret := .makeCopy } } 8 f4History).heap.writes = 0 := by decide +kernel
+
+/-- F5: `db.Where(sub)` rewrites sub's single Or into an And in sub's own array: `sub.Where(b)` renders
+    `b OR a` before and `a AND b` after sub was used as an argument. -/
+def f5History : History := ⟨[], [.cond 1 0 1, .session 1, .cond 0 2 2, .render 3 0, .condG 0 0 2, .cond 0 2 2, .render 6 0]⟩
+
+theorem C06_group_arg_mutation_counterexample :
+    (run cfg0 8 f5History).out 0 = [.fin 0, .whereKw, .cond 2, .or, .cond 1] ∧
+    (run cfg0 8 f5History).out 1 = [.fin 0, .whereKw, .cond 1, .and, .cond 2] ∧
+    (run cfg0 8 (sliceFor f5History 6)).out 0 = [.fin 0, .whereKw, .cond 2, .or, .cond 1] := by decide +kernel
+
+/-- F23: `Where.Build`'s swap is NOT benign: once `h = db.Or(a).Where(b)` has been rendered its array
+    holds `[b, Or a]`; used as a group condition (built by AndConditions.Build, which does not swap) it
+    renders `(b OR a)` instead of `(a AND b)`. -/
+def f23History : History := ⟨[], [.cond 1 0 1, .cond 0 1 2, .session 2, .render 3 0, .cond 0 0 3, .condG 0 5 3, .render 6 0]⟩
+
+theorem C06_swap_counterexample :
+    (run cfg0 8 f23History).out 1 = [.fin 0, .whereKw, .cond 3, .and, .lp, .cond 2, .or, .cond 1, .rp] ∧
+    (run cfg0 8 (sliceFor f23History 6)).out 0 = [.fin 0, .whereKw, .cond 3, .and, .lp, .cond 1, .and, .cond 2, .rp] := by
+  decide +kernel
+
+/-- F22: `Select(cols[:2], x)` appends onto the CALLER's array when it has spare capacity: two chains built
+    from the same prefix share slot 2. -/
+def f22History : History := ⟨[([1, 2], 4)], [.selectS 0 0 2 [3], .selectS 0 0 2 [4], .render 1 0, .render 2 0]⟩
+
+theorem C06_select_caller_slice_counterexample :
+    (run cfg0 8 f22History).out 0 = [.fin 0, .sel 1, .sel 2, .sel 4] ∧
+    (run cfg0 8 (sliceFor f22History 2)).out 0 = [.fin 0, .sel 1, .sel 2, .sel 3] := by decide +kernel
+
+/-- `Where.Build` rendered twice from the same shared list gives the same tokens (the swap is
+    idempotent for DIRECT rendering) — checked on the F23 list; the general statement is open. -/
+theorem C06_swap_idempotent_instance :
+    (run cfg0 8 ⟨[], [.cond 1 0 1, .cond 0 1 2, .session 2, .render 3 0, .render 3 0]⟩).outs =
+      [[.fin 0, .whereKw, .cond 2, .or, .cond 1], [.fin 0, .whereKw, .cond 2, .or, .cond 1]] := by decide +kernel
+
+/-- PARTIAL statement for the current tree: every history made of derivations and copying chain
+    methods other than a Returning merge writes no exposed slot, hence (C06_frozen) changes nothing any
+    handle exposes.  The excluded step kinds are exactly the listed findings' shapes: Returning merged
+    onto Returning (F4), a handle used as group condition (F5, F23: condG / havingG and the renderings
+    that swap), Select/Joins/Scopes appends (F22 and the own-array appends the model does not classify). -/
+theorem C06_noninterference_partial (slices : List (List Nat × Nat)) (fuel : Nat) (S : State) (ops : List Op)
+    (hops : ∀ op ∈ ops, (op.copying = true ∧ (∀ s cols, op ≠ .ret s cols)) ∨ (∃ s, op = .session s ∨ op = .newdb s ∨ op = .ctx s ∨ op = .begin s))
+    (s : Slice) (v : s.validIn S.heap) :
+    readS (runFrom genAll slices fuel S ops).heap s = readS S.heap s := by
+  have hwr : ∀ S : State, (runFrom genAll slices fuel S ops).heap.writes = S.heap.writes := by
+    induction ops with
+    | nil => intro S; rfl
+    | cons op ops ih =>
+      intro S
+      have hstep : (step genAll slices fuel S op).heap.writes = S.heap.writes := by
+        rcases hops op (List.mem_cons_self ..) with ⟨hc, hnr⟩ | ⟨src, h | h | h | h⟩
+        · obtain ⟨h1, h2, h3⟩ := C06_current_tree_merges
+          cases op <;> (try (simp [Op.copying] at hc)) <;> simp only [step, push, Op.src] <;>
+            first
+              | rfl
+              | (rw [chainOn_writes genAll h1 h2 h3 _ _ _ _ _ rfl (Or.inr hnr), getInstance_writes])
+        · subst h; exact (C06_derive_never_writes genAll slices fuel S src).1
+        · subst h; exact (C06_derive_never_writes genAll slices fuel S src).2.1
+        · subst h; exact (C06_derive_never_writes genAll slices fuel S src).2.2.1
+        · subst h; exact (C06_derive_never_writes genAll slices fuel S src).2.2.2
+      show (runFrom genAll slices fuel (step genAll slices fuel S op) ops).heap.writes = S.heap.writes
+      rw [ih (fun o ho => hops o (List.mem_cons_of_mem _ ho)), hstep]
+  exact C06_frozen genAll slices fuel S ops (hwr S) s v
 
 end Gorm
